@@ -12,6 +12,13 @@ NOTE = ("Trusted: TLC and the CommunityModules JSON reader; the projection of ne
         "evidence file on every run.")
 
 CLAIMED = {
+    "C08": ("MCCount: the as-built enumeration loop of model_count (any model, block on startpoints) counts every startpoint "
+            "projection exactly once for every solver choice order; every recorded model_count / signal_probability result "
+            "and every DIMACS file captured from approx_model_count is judged by TLC against Count(c, A) computed from "
+            "truth-table sets (all-bits for cyclic circuits and for the captured clauses).", "6 C08"),
+    "C12": ("MCDepth: the as-built recursive depth visit returns the longest path for every DAG shape on <= 5 nodes, every "
+            "start node and every visiting order; every query result of the real code on all 4-node digraphs, all 5-node DAG "
+            "shapes, 6-node DAG shapes and random typed DAGs is judged by TLC against the definitions of CGGraph.", "6 C12"),
     "C01": ("MCTseitin: the as-built Tseitin encoder model is exact for every G1 gate (all types, fan-in 1..4, constants, "
             "nested gate) and parity pairs under every fan-in iteration order; every recorded sat.cnf clause list and "
             "every sat.solve answer of the real code (G1/G2/cyclic/NAMES/blackbox/random circuits, many assumption sets, "
